@@ -758,6 +758,70 @@ def r03b(chk, repo, g, kinds: Kinds, forward: bool) -> None:
     chk.floor("R03b.post_loop_returns", 1)
 
 
+def _r03f(chk, repo) -> None:
+    f = repo.fn(SEQ, "Sequence.match")
+    from ..cfg import cfg_of as _cfg_of
+    from ..idioms import expanded as _expanded
+
+    cfg = _cfg_of(f)
+    loops = [n for n in walk_local(f) if isinstance(n, ast.For) and norm(_expanded(cfg, n.iter, n)).endswith("._elements")]
+    chk.count("R03f.element_loops", len(loops))
+    if len(loops) != 1:
+        raise AnalysisError("R03f: Sequence.match no longer has exactly one loop over self._elements; re-confirm the anchor by hand")
+    loop = loops[0]
+
+    def is_meta_test(t) -> bool:
+        return any(isinstance(c, ast.Call) and call_name(c) in ("isinstance", "issubclass") and len(c.args) == 2 and {"Conditional", "Indent", "MetaSegment"} & {x.id for x in ast.walk(c.args[1]) if isinstance(x, ast.Name)} for c in ast.walk(t))
+
+    arms = []
+
+    def arms_of(st) -> bool:
+        """Collect the meta arms of one statement of the loop body (an if / elif chain of meta tests, or a
+        test whose whole body is such a statement: a conjunction written as nested ifs)."""
+        if not isinstance(st, ast.If):
+            return False
+        if is_meta_test(st.test):
+            cur = st
+            while True:
+                arms.append((cur, cur.body))
+                if len(cur.orelse) == 1 and isinstance(cur.orelse[0], ast.If) and (is_meta_test(cur.orelse[0].test) or (len(cur.orelse[0].body) == 1 and isinstance(cur.orelse[0].body[0], ast.If) and is_meta_test(cur.orelse[0].body[0].test))):
+                    cur = cur.orelse[0]
+                    if not is_meta_test(cur.test):
+                        return arms_of(cur)
+                    continue
+                chk.require(not cur.orelse, "R03f", cur, "the meta arms of Sequence.match's element loop carry an else branch: elements that are not metas are handled inside the meta test", detail="meta arms: no else")
+                return True
+        if len(st.body) == 1 and not st.orelse and isinstance(st.body[0], ast.If):
+            return arms_of(st.body[0])
+        return False
+
+    simple_so_far = True
+    for st in loop.body:
+        n0 = len(arms)
+        if arms_of(st):
+            chk.require(
+                simple_so_far, "R03f", st,
+                "a statement that can leave the iteration precedes the meta arms of Sequence.match's element loop: metas are no longer handled the same whether segments are left or not",
+                detail="meta arms come first",
+            )
+        elif not isinstance(st, (ast.Assign, ast.AnnAssign, ast.Expr)):
+            del arms[n0:]
+            simple_so_far = False
+    chk.count("R03f.meta_arms", len(arms))
+    for test_if, body in arms:
+        bad = [n for b in body for n in ast.walk(b) if isinstance(n, (ast.If, ast.IfExp, ast.While, ast.Try, ast.Break, ast.Return, ast.Raise, ast.Match)) or (isinstance(n, ast.comprehension) and n.ifs)]
+        conts = [n for b in body for n in ast.walk(b) if isinstance(n, ast.Continue)]
+        bad += [c for c in conts if c is not body[-1]]
+        buffers = [n for b in body for n in ast.walk(b) if (isinstance(n, ast.Call) and isinstance(n.func, ast.Attribute) and n.func.attr in ("append", "extend")) or isinstance(n, ast.AugAssign)]
+        chk.require(
+            not bad and buffers and isinstance(body[-1], ast.Continue), "R03f", bad[0] if bad else test_if,
+            "a meta arm of Sequence.match's element loop is conditional (or does not buffer / continue): a Conditional or Indent element can be skipped in a completed match -- e.g. a trailing "
+            "Conditional(Dedent) once the segments have run out -- while its partner was emitted, so the indent sum of the node is not zero",
+            detail="meta arm is straight-line: evaluate, buffer, continue", construct=f"{SEQ}::Sequence.match",
+        )
+    chk.floor("R03f.meta_arms", 2)
+
+
 def run(chk) -> None:
     repo = chk.repo
     chk.rule("R03a", "for every dialect, segment class and assignment of the indentation keys below the class, the Indent/Dedent metas of a completed match sum to zero (abstract interpretation of the expanded grammar graph); the engine's own bracket inserts are balanced pairs")
@@ -767,6 +831,8 @@ def run(chk) -> None:
     chk.note(f"grammar front-end: {len(g)} dialects, {g.n_nodes} nodes ({'cache' if g.from_cache else 'rebuilt'}).")
     forward, _ = bracketed_forwards_content(repo)
     r03b(chk, repo, g, Kinds(g), forward)
+    chk.rule("R03f", "Sequence.match buffers the meta of every Conditional / Indent element unconditionally: in the element loop the meta arms come before any other test, are straight-line, append to a buffer and end in continue -- whether segments are left or not (R03a's sums assume every enabled meta of a completed match is emitted)")
+    _r03f(chk, repo)
     r03a(chk, repo, g)
     r03c(chk, repo)
     chk.rule("R03d", "a node's position is the hull of ALL its children's positions: PositionMarker.from_child_markers builds both slices as slice(min(<child>.X.start ...), max(<child>.X.stop ...)) over every non-empty marker it is given, and BaseSegment.__init__ gives it the marker of every child")
@@ -1029,6 +1095,24 @@ _FINAL_OLD = (
 )
 
 VARIANTS = [
+    Variant(
+        "r03f-conditional-skipped-when-out-of-segments", SEQ,
+        "                _match = elem.match(segments, matched_idx, parse_context)\n                # Rather than taking them as a match at this location, we\n",
+        "                if matched_idx >= max_idx:\n                    continue\n                _match = elem.match(segments, matched_idx, parse_context)\n                # Rather than taking them as a match at this location, we\n",
+        "R03f", "Sequence.match", "seeded C03-9",
+    ),
+    Variant(
+        "r03f-raw-indent-skipped-when-out-of-segments", SEQ,
+        "                meta_buffer.append(elem)\n                continue\n",
+        "                if matched_idx < max_idx:\n                    meta_buffer.append(elem)\n                continue\n",
+        "R03f", "Sequence.match", "raw Indent/Dedent dropped at the end of the segments",
+    ),
+    Variant(
+        "quiet-r03f-buffer-extended-in-one-call", SEQ,
+        "                for _, submatch in _match.insert_segments:\n                    meta_buffer.append(submatch)\n                continue\n",
+        "                meta_buffer.extend(submatch for _, submatch in _match.insert_segments)\n                continue\n",
+        "QUIET", None, "R03f: buffer extended with a generator",
+    ),
     Variant(
         "buffered-metas-sorted-dedents-first", "src/sqlfluff/core/parser/grammar/sequence.py",
         "        insert_segments += tuple((matched_idx, meta) for meta in meta_buffer)\n\n        # Finally if we're in one of the greedy modes",
